@@ -141,8 +141,9 @@ impl Handler<InitializeRequest> for InitializeRequestHandler {
         conn: &mut DebugSession,
         args: InitializeRequestArguments,
     ) -> MosResult<Capabilities> {
-        conn.lines_start_at_1 = args.lines_start_at_1.unwrap_or_default();
-        conn.columns_start_at_1 = args.columns_start_at_1.unwrap_or_default();
+        // The debug adapter protocol says both default to true
+        conn.lines_start_at_1 = args.lines_start_at_1.unwrap_or(true);
+        conn.columns_start_at_1 = args.columns_start_at_1.unwrap_or(true);
         conn.enqueue_event::<InitializedEvent>(());
         Ok(Capabilities {
             supports_configuration_done_request: Some(true),
